@@ -14,10 +14,14 @@ import (
 	"verifmc/spec"
 )
 
+var c20Zones = []*time.Location{time.FixedZone("+01:00", 3600), time.FixedZone("+14:00", 14*3600), time.FixedZone("-12:00", -12*3600), time.FixedZone("+05:45", 5*3600+45*60)}
+
 func init() { register("C20", "exploration", runC20) }
 
 func runC20(r *engine.Run) {
 	r.Rule = "E1 product enumeration. GPS: every day 1980-01-06..2100-01-01 at 00:00:00/12:00:00/23:59:59, every millisecond within ±3 s of each of the 18 leap instants, ±{1,2,3} ns around every whole second there, and the GPS-duration images of those windows; airtime: SF 5..12 x BW{125,250,500,812,1625} x payload 0..255 x CR 0..5 x header x LDRO x preamble 0..64 (complete); EIRP: all 256 indices and float32 bit patterns (quick: every float32 in [8,64) + one per exponent above; thorough: every finite float32 >= 8). A case is non-trivial when the implementation returned a value that was compared with the independent definition (not an error path)."
+	r.Rule += " E3 (schedules): GPS<->UTC conversions of three published instants and an airtime computation from three threads, including the first calls of the process, every interleaving of instrumented package-level accesses and synchronisation operations; every result equals the published value; no data race."
+	mergeSchedSummary(r, "C20")
 	r.Assume("published leap-second dates (18 since 1980) are transcribed in spec/leap.go from the IERS bulletin list, not from the library")
 	r.Assume("instants strictly inside the last UTC second of a leap day (23:59:59.0, 24:00:00) and GPS durations inside the inserted second are recorded, not judged (the property exempts them)")
 	r.Assume("airtime is compared with the Semtech formula in exact rational arithmetic; the library's integer-nanosecond truncation (<= 1 ns per symbol) is tolerated, nothing more")
@@ -49,6 +53,13 @@ func runC20(r *engine.Run) {
 		back := time.Time(gps.NewTimeFromTimeSinceGPSEpoch(d))
 		if !back.Equal(t) {
 			c.Fail("gps/utc-gps-utc-not-identity", fmt.Sprintf("UTC %s -> %s since GPS epoch -> UTC %s", t.Format(time.RFC3339Nano), d, back.Format(time.RFC3339Nano)), nil)
+		}
+		// a time.Time denotes the same instant whatever Location it carries
+		for _, z := range c20Zones {
+			if dz := gps.Time(t.In(z)).TimeSinceGPSEpoch(); dz != d {
+				c.Fail("gps/depends-on-location", fmt.Sprintf("instant %s: %s since GPS epoch when held in UTC, %s when held in zone %s", t.Format(time.RFC3339Nano), d, dz, z), nil)
+				break
+			}
 		}
 		if insideLeapSecond(t) {
 			c.Outcome("gps/inside-leap-second(recorded)")
